@@ -85,7 +85,7 @@ fn proof_info(run: &mut Run, vk: &MidnightVK, ks: &KeySet) -> ProofInfo {
     }
     let shape = shape_of(vk, nsets);
     let ks_str: String = kinds.iter().collect();
-    run.ctx.case(
+    run.case(
         "proofsched",
         true,
         &format!("proofsched {shape}"),
@@ -141,7 +141,7 @@ fn proof_case(run: &mut Run, o: &Objects, vk: &MidnightVK, is_a: bool, info: &Pr
             format!("reads={n} {class}")
         }
     };
-    run.ctx.case(
+    run.case(
         &format!("proof-{name}:{kind}"),
         !ans.ends_with("reads=0 transcript"),
         &format!("proof {} {}", info.shape, hex(proof)),
@@ -296,7 +296,7 @@ pub fn run_vparams(run: &mut Run, o: &Objects) {
                     format!("ok {} rest={rest}", g2_render(&G2Affine::from(p)))
                 }
             };
-            run.ctx.case(&format!("vparams-{fs}:{kind}"), ans.starts_with("ok") || ans.ends_with("point"), &format!("vparams {fs} {}", hex(&bytes)), &ans);
+            run.case(&format!("vparams-{fs}:{kind}"), ans.starts_with("ok") || ans.ends_with("point"), &format!("vparams {fs} {}", hex(&bytes)), &ans);
         }
     }
 }
@@ -403,7 +403,7 @@ fn irb_case(run: &mut Run, bytes: &[u8], kind: &str) {
         IR_LIMIT,
         hex(bytes)
     );
-    run.ctx.case(&format!("irb:{kind}"), !ans.ends_with("eof"), &op, &ans);
+    run.case(&format!("irb:{kind}"), !ans.ends_with("eof"), &op, &ans);
 }
 
 fn random_type(rng: &mut impl Rng) -> IrType {
@@ -549,7 +549,7 @@ pub fn run_ir(run: &mut Run) {
             rel.write_relation(&mut b).unwrap();
             // what serde accepted, re-encoded by bincode, must decode to the same program in the model
             irb_case(run, &b, &format!("from-json-{kind}"));
-            if bincodes.len() < (if quick { 10 } else { 120 }) && b.len() > 4 {
+            if bincodes.len() < (if quick { 10 } else { 24 }) && b.len() > 4 {
                 bincodes.push(b);
             }
         }
@@ -580,7 +580,7 @@ pub fn run_ir(run: &mut Run) {
                 format!("err {name}")
             }
         };
-        run.ctx.case("irarity", !p.is_empty(), &format!("irarity {spec}"), &ans);
+        run.case("irarity", !p.is_empty(), &format!("irarity {spec}"), &ans);
     }
 
     // --- bincode ------------------------------------------------------------------------------
@@ -604,13 +604,13 @@ pub fn run_ir(run: &mut Run) {
             let mut b = vec![];
             rel.write_relation(&mut b).unwrap();
             irb_case(run, &b, "structured");
-            if bincodes.len() < (if quick { 16 } else { 200 }) && b.len() > 8 {
+            if bincodes.len() < (if quick { 16 } else { 48 }) && b.len() > 8 {
                 bincodes.push(b);
             }
         }
     }
     for (bi, h) in bincodes.iter().enumerate() {
-        let heavy = bi < 3 || !quick;
+        let heavy = bi < (if quick { 3 } else { 12 });
         for t in 0..h.len() {
             if heavy || t % 5 == 0 {
                 irb_case(run, &h[..t], "truncate");
@@ -640,7 +640,7 @@ pub fn run_ir(run: &mut Run) {
             irb_case(run, &m, "marker-insert");
         }
     }
-    for _ in 0..(if quick { 100 } else { 5000 }) {
+    for _ in 0..(if quick { 100 } else { 20000 }) {
         let n = rng.gen_range(0..60);
         irb_case(run, &mutate::random_bytes(n, &mut rng), "random");
         // small random bytes biased to small values (plausible tags/lengths)
